@@ -1,6 +1,6 @@
 (* Extract/C13.v — entry points of the array (CSE) models. *)
 From Coq Require Import ZArith List String Extraction ExtrOcamlBasic.
-From PV Require Import Lib.Py Extract.Sx Model.Ops Model.Arrays.
+From PV Require Import Lib.Py Extract.Sx Model.Ops Model.Arrays Model.CseCells.
 From PV Require Gen.excelutil Gen.arrayfit.
 Import ListNotations.
 Open Scope string_scope.
@@ -40,11 +40,78 @@ Definition cse_probe_entry (args : list sx) : sx :=
   | _ => bad_args
   end.
 
+(* every member cell of a CSE range of size h x w whose formula returns [result] *)
+Definition cse_members_entry (args : list sx) : sx :=
+  match args with
+  | [SZ h; SZ w; a] =>
+      match dec_val a with
+      | Some v => enc_res (target_cells h w v)
+      | None => bad_args
+      end
+  | _ => bad_args
+  end.
+
+(* _evaluate_range of a CSE range of size h x w *)
+Definition range_value_entry (args : list sx) : sx :=
+  match args with
+  | [SZ h; SZ w; a] =>
+      match dec_val a with
+      | Some v => enc_res (cse_range_value h w v)
+      | None => bad_args
+      end
+  | _ => bad_args
+  end.
+
+(* the sheet side: [row; col; i; j; h; w; start_col; start_row; end_col; end_row] per member *)
+Definition load_members_entry (args : list sx) : sx :=
+  match args with
+  | [SZ r0; SZ c0; SZ h; SZ w] =>
+      enc_res (Ok (VTuple (map (fun m =>
+        let '((row, col), s) := m in
+        let '(i, j, hh, ww) := s in
+        let '(sc, sr, ec, er) := member_range row col s in
+        VTuple (map VInt [row; col; i; j; hh; ww; sc; sr; ec; er]))
+        (load_members r0 c0 h w))))
+  | _ => bad_args
+  end.
+
+(* range_formula: rows of cells, a cell = [] (anything else) or [text; i; j; h; w];
+   answer: (True, text) or (False,) *)
+Definition dec_cell (c : sx) : option sheet_cell :=
+  match c with
+  | SL [] => Some Other
+  | SL [t; SZ i; SZ j; SZ h; SZ w] =>
+      match dec_val t with Some (VStr f) => Some (Member f (i, j, h, w)) | _ => None end
+  | _ => None
+  end.
+Fixpoint dec_all {A} (d : sx -> option A) (l : list sx) : option (list A) :=
+  match l with
+  | [] => Some []
+  | x :: l' => match d x, dec_all d l' with Some a, Some r => Some (a :: r) | _, _ => None end
+  end.
+Definition range_formula_entry (args : list sx) : sx :=
+  match args with
+  | [SL rows] =>
+      match dec_all (fun r => match r with SL cs => dec_all dec_cell cs | _ => None end) rows with
+      | Some cells =>
+          enc_res (Ok match range_formula cells with
+                      | Some f => VTuple [VBool true; VStr f]
+                      | None => VTuple [VBool false]
+                      end)
+      | None => bad_args
+      end
+  | _ => bad_args
+  end.
+
 Definition table : list entry :=
   [ E "op_fixup" (op_entry op_fixup)
   ; E "array_fixup" (op_entry array_fixup)
   ; E "fit_to_range" (call2 arrayfit.f__ArrayFormulaContext_fit_to_range)
   ; E "cse_probe" cse_probe_entry
+  ; E "target_cells" cse_members_entry
+  ; E "load_members" load_members_entry
+  ; E "range_formula" range_formula_entry
+  ; E "range_value" range_value_entry
   ].
 
 Definition dispatch (name : list Z) (args : list sx) : sx :=
